@@ -5,8 +5,7 @@ they keep, and how `Reseq.process` behaves under the invariant.
 import SradModel.Model.HostSpec
 import SradModel.Proofs.Reseq
 
-namespace Srad.Host
-
+namespace Srad.Host.C07P
 /-! ### fields that only `issueRebirth` / `setStale` / `handleBirth` touch -/
 
 /-- `s'` has the same `lastRebirth`, `birthTs`, `life`, `bdseq` as `s` -/
@@ -633,4 +632,4 @@ theorem unknown_node (c : Cfg) (a : App) (n seq ts : Nat) (m : RMsg) (now wall :
   simp
   rfl
 
-end Srad.Host
+end Srad.Host.C07P
